@@ -1364,9 +1364,13 @@ class Engine:
             nobl = len(self.obligations)
             try:
                 m = getattr(self, "s_" + type(stmt).__name__, None)
-                if m is None:
+                ab = self.abstracted(stmt)
+                if ab is not None:
+                    outs = self.s_abstract(s, stmt, ab)
+                elif m is None:
                     raise Unsupported(f"statement {type(stmt).__name__}")
-                outs = m(s, stmt)
+                else:
+                    outs = m(s, stmt)
                 for s2, oc in outs:
                     s2.nstmt += 1
                     results.append((s2, oc))
@@ -1383,6 +1387,48 @@ class Engine:
             except PathEnd:
                 pass
         return results
+
+    def abstracted(self, stmt):
+        """contract.abstract_stmts: {first line of the statement's source: [local names]} - the statement is
+        replaced by 'these locals now hold arbitrary values of their declared types'."""
+        table = getattr(self.contract, "abstract_stmts", None)
+        if not table:
+            return None
+        try:
+            head = ast.unparse(stmt).splitlines()[0].strip()
+        except Exception:  # noqa: BLE001
+            return None
+        for prefix, names in table.items():
+            if head.startswith(prefix):
+                return list(names)
+        return None
+
+    def s_abstract(self, st, stmt, names):
+        """Sound over-approximation of a statement that writes only the listed locals: a frame check on the
+        AST (every name it assigns and every object it mutates is one of them), then havoc."""
+        from .loops import modified_paths
+
+        wnames, wpaths = modified_paths(self, [stmt])
+        if isinstance(stmt, ast.For):
+            for n in ast.walk(stmt.target):
+                if isinstance(n, ast.Name):
+                    wnames.add(n.id)
+        bad = [n for n in wnames if n not in names] + [".".join(pth) for pth in wpaths if pth[0] not in names]
+        if bad:
+            raise Unsupported(f"abstracted statement at line {self.line(stmt)} also writes {sorted(set(bad))}")
+        for node in ast.walk(stmt):
+            if isinstance(node, (ast.Return, ast.Raise, ast.Yield, ast.YieldFrom, ast.Break, ast.Continue)):
+                raise Unsupported(f"abstracted statement at line {self.line(stmt)} changes control flow")
+        for n in names:
+            t = self.contract.hints.get(n)
+            if t is None:
+                raise Unsupported(f"abstracted local {n} has no declared type")
+            v = self.havoc_t(st, t, f"abs.{n}", stmt)
+            for f in Ty.wf(v, f"abs.{n}"):
+                st.assume(f)
+            st.vars[n] = self.alloc(st, v) if t.mutable else v
+        self.dropped.append(f"statement at line {self.line(stmt)} abstracted: locals {names} hold arbitrary values afterwards ({ast.unparse(stmt).splitlines()[0][:70]})")
+        return [(st, "normal")]
 
     def s_Pass(self, st, stmt):
         return [(st, "normal")]
